@@ -6,7 +6,9 @@ import GgrsModel.Generated.Consts
 
 namespace Ggrs
 
-abbrev Frame := Int
+/-- Frames are `Int` (an `i32` in Rust; overflow is outside the model). A notation rather than an
+abbreviation, so that `omega` sees plain `Int` terms. -/
+notation "Frame" => Int
 /-- `NULL_FRAME` (lib.rs) -/
 def NULL_FRAME : Frame := -1
 
